@@ -53,4 +53,19 @@ def obligations(tier, seed=0):
     for bc in (1, 5, 30, 80):
         add('ldexp_frexp', bc=bc, fn='ldexp')
         add('ldexp_frexp', bc=bc, fn='frexp')
+    if tier == 'thorough':
+        for bc in (3, 7, 53, 113, 300):
+            add('mag', kind='mpf', bc=bc)
+            add('mag', kind='mpf', bc=bc, ctxprec=7)
+            add('ldexp_frexp', bc=bc, fn='ldexp')
+            add('ldexp_frexp', bc=bc, fn='frexp')
+        for bc in (3, 24, 53, 64, 100):
+            for neg in (0, 1):
+                add('mag', kind='int', bc=bc, neg=neg)
+        for rbc, ibc, off in [(8, 8, 0), (8, 8, 1), (8, 8, -1), (16, 3, -6), (3, 16, 6), (20, 20, 0), (24, 2, -30), (2, 24, 30), (7, 9, 2)]:
+            for cp in (53, 5, 24):
+                add('mag', kind='mpc', rbc=rbc, ibc=ibc, off=off, ctxprec=cp)
+        for bc in (2, 4, 6, 7, 9, 10, 16, 24):
+            for e in (-1, -2, -bc, -bc - 1, -bc + 1, 0, 2, -bc - 3):
+                add('nint_distance', bc=bc, exp=e)
     return obs
